@@ -569,9 +569,13 @@ class KeychainSqlite3(Keychain):
         """
         name = Name.to_bytes(id_name)
         if name not in self:
+            # Only keep the new identity if its default key could be created as well
             self.conn.execute('INSERT INTO identities (identity) VALUES (?)', (name,))
-            self.conn.commit()
-            self.new_key(name)
+            try:
+                self.new_key(name)
+            except BaseException:
+                self.conn.rollback()
+                raise
         if not self.has_default_identity():
             self.set_default_identity(name)
         return self[name]
